@@ -69,6 +69,11 @@ CLAIMED = {
    text="TLC enumerates every combination of {delete, set, nested patch} per field of Ent and Leaf partial updates (nested to depth 1) under 5 exclusion sets, every subset of members of every union, every enum ordinal from -1 to n+1 and every fixed length from 0 to size+1, with the legality the property prescribes. The harness builds each partial-update struct / union / enum by reflection, encodes it with the real writer configured with the exclusion spec and decodes the reference document with the real reader (leading scope 1): errors must occur exactly for the illegal cases, legal partial updates must produce the protocol tree (the $delete list compared as a set) and decode back to the same operations; unknown enum symbols must decode to the unknown value.",
    note="setting a whole record field one of whose sub-fields is excluded is unspecified and skipped; deleting a required field is only expressible as a document",
    design="5/C11"),
+ "C06": dict(
+   technique="TLA+ spec Reader.tla: declarative Missing(schema, document) vs an operational traversal with explicit scope stack, remaining-required sets and missing list (one step per enter/exit), compared by TLC on every document; every document exported and read by all real readers, error type / field set / partial value compared",
+   text="TLC enumerates, for base values of Nest, IncTop, Prims, Leaf, DefContainers, CK and DefOuter, every document obtained by removing any subset of record fields at any depth (inside a two-element array, a two-entry map, a union member, optional and required nested records, behind one and two includes), and checks that the operational accounting reports exactly the declarative set with a balanced scope stack. Each document is rendered independently of the library in five JSON variants (key orders, whitespace, unknown primitive/object/array fields first and last), as plain Go data for the untyped reader and as ROR2 in three flavours; the real reader must return a MissingRequiredFieldsError listing exactly the specified paths (none when complete) and a value carrying every field that was present.",
+   note="paths use the JSON reader's format; query-reader paths are compared without the parameter name; defaults are not demanded in partially filled values; the lenient client is exercised under C02",
+   design="5/C06"),
 }
 
 NOT_YET = {}
